@@ -6,7 +6,7 @@ PID = "C02"
 
 
 def run(tier, seed):
-    return exec_common.run_exec(PID, tier, seed, 2, scns=("switch", "exec", "ryt", "replace"), pre=pre)
+    return exec_common.run_exec(PID, tier, seed, 2, scns=("switch", "exec", "ryt", "replace", "ytrace"), pre=pre)
 
 
 def pre(chk):
